@@ -85,9 +85,22 @@ Definition piece_orientation (r : line) (p : piece) : Z :=
 Definition line_eqb (a b : line) : bool :=
   Nat.eqb (length a) (length b) && forallb (fun pq => pt_eqb (fst pq) (snd pq)) (combine a b).
 
+(* b is a rotation of a: some split a = pre ++ suf has suf ++ pre = b.  The candidate split is
+   only compared in full when its first vertex is b's first vertex (linear for rings with
+   distinct vertices; [rev_append pre_rev []] is the reversal in linear time). *)
+Fixpoint cyc_search (pre_rev suf b : line) : bool :=
+  match suf with
+  | [] => false
+  | x :: s' =>
+      (* if-then-else, not && / ||: vm_compute evaluates both arguments of a function *)
+      if (if pt_eqb x (hd origin b) then line_eqb (suf ++ rev_append pre_rev []) b else false)
+      then true else cyc_search (x :: pre_rev) s' b
+  end.
 Definition cyc_eqb (a b : line) : bool :=
-  Nat.eqb (length a) (length b) &&
-  existsb (fun k => line_eqb (rot k a) b) (seq 0 (Nat.max 1 (length a))).
+  match a, b with
+  | [], [] => true
+  | _, _ => Nat.eqb (length a) (length b) && cyc_search [] a b
+  end.
 
 (* an observed (closed) ring is the ground-truth ring [gt], in either direction, from any start *)
 Definition ring_matches (gt obs : line) : bool :=
